@@ -95,6 +95,7 @@ type FnEnc struct {
 	deferred  []*ssa.Defer
 	err       error
 	oblNames  map[string]int
+	skipPkgInv bool
 	loopPre   map[*loopInfo]*State
 	exitState *State
 	specHeapUse []map[string]bool
@@ -220,6 +221,16 @@ func (e *FnEnc) havocAll() {
 	// immutable fields (checked syntactically, immut.go) keep their values on objects that already exist;
 	// the allocation set only grows
 	imm := e.prog.immutableArrays(e.sorter)
+	glob := e.prog.invariantGlobalArrays(e.sorter)
+	globOld := make([]string, len(glob))
+	for i, a := range glob {
+		globOld[i] = e.heapArr(a.name, a.sort)
+	}
+	defer func() {
+		for i, a := range glob {
+			e.st.heap[a.name] = globOld[i]
+		}
+	}()
 	olds := make([]string, len(imm))
 	for i, a := range imm {
 		olds[i] = e.heapArr(a.name, a.sort)
